@@ -2,29 +2,49 @@
 (***************************************************************************)
 (* C25 enumerator.  TLC lists every admissible lattice network (module     *)
 (* FracMesh, PART 1) of 1..maxf fractures for every configuration          *)
-(*   <<dim, <<nx, ny, nz>>, maxf, ordered>>  in Boxes                       *)
+(*   <<dim, <<nx, ny, nz>>, maxf, ordered, t2, t3>>  in Boxes               *)
 (* (ordered = TRUE: all ORDERED sequences of fractures - the order is the   *)
 (* order in which porepy splits the host grid; FALSE: one canonical order   *)
-(* per set), checks the model laws on each and emits it with the           *)
+(* per set; t2, t3: thinning of the second / third fracture - only one in   *)
+(* t of the extensions is kept, chosen by a hash salted with Salt; 1 = all: *)
+(* the configuration is then enumerated exhaustively),                      *)
+(* checks the model laws on each and emits it with the                      *)
 (* statistics of its expected structure.  The driver meshes every emitted   *)
 (* network with the real code; J_FracMesh recomputes the expected           *)
 (* structure from the network and compares.                                 *)
 (***************************************************************************)
 EXTENDS FracMesh, Json
 
-CONSTANTS Boxes
+CONSTANTS Boxes, Salt
 VARIABLES cfg, fr
 vars == <<cfg, fr>>
 
-Pts(box) == {<<x, y, z>> : x \in 0..box[1], y \in 0..box[2], z \in 0..box[3]}
-Cands(dim, box) == {f \in Pts(box) \X Pts(box) : FracOK(dim, box, f)}
+\* all fractures of a box, built directly (flat direction i at an interior position c, proper intervals in the
+\* other in-manifold directions); computed once per configuration
+Ivs(n) == {iv \in (0..n) \X (0..n) : iv[1] < iv[2]}
+Mk(i, c, j, ij, k, ik) == <<[m \in 1..3 |-> IF m = i THEN c ELSE IF m = j THEN ij[1] ELSE ik[1]],
+                           [m \in 1..3 |-> IF m = i THEN c ELSE IF m = j THEN ij[2] ELSE ik[2]]>>
+Cands(dim, box) ==
+  IF dim = 2
+  THEN UNION {{Mk(i, c, 3 - i, iv, 3, <<0, 0>>) : c \in 1..(box[i] - 1), iv \in Ivs(box[3 - i])} : i \in 1..2}
+  ELSE UNION {LET j == IF i = 1 THEN 2 ELSE 1
+                  k == IF i = 3 THEN 2 ELSE 3
+              IN {Mk(i, c, j, ij, k, ik) : c \in 1..(box[i] - 1), ij \in Ivs(box[j]), ik \in Ivs(box[k])}
+              : i \in 1..3}
+CandsOf == [b \in Boxes |-> Cands(b[1], b[2])]
 Code(f) == ((((f[1][1] * 8 + f[1][2]) * 8 + f[1][3]) * 8 + f[2][1]) * 8 + f[2][2]) * 8 + f[2][3]
 Net == [dim |-> cfg[1], box |-> cfg[2], fracs |-> fr]
+\* deterministic pseudo-random thinning of the extensions of fr by f
+Hash(f) == (Code(f) % 9973) * 31 + (Code(f) % 127) * 7
+Keep(f) == LET t == IF Len(fr) = 1 THEN cfg[5] ELSE IF Len(fr) = 2 THEN cfg[6] ELSE 1 IN
+           IF t = 1 THEN TRUE
+           ELSE (Hash(f) + 13 * Hash(fr[Len(fr)]) + 5 * Hash(fr[1]) + Salt) % t = 0
 
 Init == cfg \in Boxes /\ fr = <<>>
 Next == /\ Len(fr) < cfg[3]
-        /\ \E f \in Cands(cfg[1], cfg[2]) :
+        /\ \E f \in CandsOf[cfg] :
              /\ IF cfg[4] \/ fr = <<>> THEN TRUE ELSE Code(fr[Len(fr)]) < Code(f)
+             /\ Keep(f)
              /\ \A k \in 1..Len(fr) :
                   CellsIn(fr[k][1], fr[k][2], cfg[1] - 1) \cap CellsIn(f[1], f[2], cfg[1] - 1) = {}
              /\ fr' = Append(fr, f)
@@ -34,5 +54,6 @@ Spec == Init /\ [][Next]_vars
 Emit == fr # <<>> => PrintT(ToJson([dim |-> cfg[1], box |-> cfg[2], fracs |-> fr, ordered |-> cfg[4],
                                      stats |-> Stats(Net)]))
 Laws == fr # <<>> => /\ Admissible(Net)
+                     /\ \A k \in 1..Len(fr) : FracOK(cfg[1], cfg[2], fr[k])
                      /\ LawFractureTwoSided(Net) /\ LawIntersections(Net) /\ LawLevelsDisjoint(Net)
 =============================================================================
